@@ -53,8 +53,8 @@ Feed(o, es, i) ==
                    [] OTHER -> O!Q(o)
        IN LET rest == Feed(o1, es, i + 1) IN [rest EXCEPT !.viol = o1.viol \o rest.viol]
 
-MCNext ==
-  /\ \/ \E c \in Clients, o \in Outcomes : Req(c, o) /\ act' = [a |-> "req", c |-> c, o |-> o]
+MCActs ==
+     \/ \E c \in Clients, o \in Outcomes : Req(c, o) /\ act' = [a |-> "req", c |-> c, o |-> o]
      \/ \E b \in B : \/ Release(b) /\ act' = [a |-> "release", b |-> b]
                      \/ Mark(b) /\ act' = [a |-> "mark", b |-> b]
                      \/ Add(b) /\ act' = [a |-> "add", b |-> b]
@@ -63,11 +63,15 @@ MCNext ==
      \/ \E s \in Strategies : SetStrategy(s) /\ act' = [a |-> "strategy", s |-> s]
      \/ \E b \in B, k \in {"add_dup", "add_badurl", "strategy_unknown", "remove_absent"} : BadOp(k, b) /\ act' = [a |-> k, b |-> b]
      \/ Tick /\ act' = [a |-> "tick"]
-  /\ obs' = Feed(obs, evs', 1)
+
+MCNext == MCActs /\ obs' = Feed(obs, evs', 1)
+\* transition emission does not need the observer (and keeps the states small)
+GenNext == MCActs /\ UNCHANGED obs
 
 AllStrategies == {"round_robin", "least_connections", "weighted_round_robin", "ip_hash", "ip_hash_consistent"}
 W321 == [b \in 1..N |-> IF b = 1 THEN 3 ELSE IF b = 2 THEN 2 ELSE 1]
 W111 == [b \in 1..N |-> 1]
+W2101 == [b \in 1..N |-> IF b = 1 THEN 2 ELSE 1]
 Hash2 == [c \in Clients |-> c * 5 + 1]
 
 Clauses(o) == {o.viol[i].clause : i \in DOMAIN o.viol}
